@@ -524,3 +524,79 @@ pub fn check_answer<const N: usize>(
     }
     out
 }
+
+/// C06: several queries on ONE solver object, in the given order; every status is compared with the reference, the
+/// status with and without certificate must coincide, and the framework must be left untouched.
+/// `script` = list of (kind, argument index, with_certificate).
+pub fn repeated_queries<const N: usize, const WORDS: usize>(
+    af: &AAFramework<usize>,
+    sp: &Spec,
+    pres: Pres,
+    sem: Sem,
+    enc: Enc,
+    script: &[(Kind, usize, bool)],
+    sh: &Rc<Shared>,
+) {
+    let n_args = af.n_arguments();
+    let n_atts = af.n_attacks();
+    let f = oracle::factory::<WORDS>(sh);
+    let checks = Checks { answer: true, certificate: true, header: false, fault: false, calls: false };
+    macro_rules! go {
+        ($solver:expr, $cred:expr, $skep:expr) => {{
+            let mut s = $solver;
+            for (kind, a, cert) in script.iter() {
+                let l = label_of(*a);
+                let q: [&usize; 1] = [&l];
+                let ans: Answer = match kind {
+                    Kind::DC => $cred(&mut s, &q[..], *cert),
+                    _ => $skep(&mut s, &q[..], *cert),
+                };
+                let o = check_answer::<N>(af, sp, pres, *kind, 1 << *a, *cert, checks, sh, ans);
+                std::mem::forget(o);
+            }
+            std::mem::forget(s);
+        }};
+    }
+    match sem {
+        Sem::ST => go!(StableSemanticsSolver::new_with_sat_solver_factory(af, f), do_dc, do_ds),
+        Sem::GR => go!(GroundedSemanticsSolver::new(af), do_dc, do_ds),
+        Sem::CO => {
+            let mut s = match enc {
+                Enc::Default => CompleteSemanticsSolver::new_with_sat_solver_factory(af, f),
+                e => CompleteSemanticsSolver::new_with_sat_solver_factory_and_constraints_encoder(af, f, encoder(e)),
+            };
+            for (kind, a, cert) in script.iter() {
+                let l = label_of(*a);
+                let q: [&usize; 1] = [&l];
+                let ans = do_dc(&mut s, &q[..], *cert);
+                let o = check_answer::<N>(af, sp, pres, *kind, 1 << *a, *cert, checks, sh, ans);
+                std::mem::forget(o);
+            }
+            std::mem::forget(s);
+        }
+        _ => unreachable!(),
+    }
+    require!(af.n_arguments() == n_args, "C06: querying never modifies the framework (arguments)");
+    require!(af.n_attacks() == n_atts, "C06: querying never modifies the framework (attacks)");
+    require!(af.iter_attacks().count() == n_atts, "C06: querying never modifies the framework (attack iteration)");
+}
+
+/// C06: the same credulous query through the complete solver with the three selectable encodings: one status.
+pub fn same_status_for_every_encoding<const N: usize, const WORDS: usize>(af: &AAFramework<usize>, sp: &Spec, a: usize, cert: bool, sh: &Rc<Shared>) {
+    let l = label_of(a);
+    let q: [&usize; 1] = [&l];
+    let mut first: Option<bool> = None;
+    for e in [Enc::AuxCo, Enc::ExpCo, Enc::Hybrid] {
+        let f = oracle::factory::<WORDS>(sh);
+        let mut s = CompleteSemanticsSolver::new_with_sat_solver_factory_and_constraints_encoder(af, f, encoder(e));
+        let ans = do_dc(&mut s, &q[..], cert);
+        let st = ans.0.unwrap();
+        require!(st == is_ext_in(sp.cred, 1 << a), "C06: the status equals the reference whatever the encoding");
+        if let Some(x) = first {
+            require!(x == st, "C06: the status does not depend on the encoding");
+        }
+        first = Some(st);
+        std::mem::forget(ans);
+        std::mem::forget(s);
+    }
+}
